@@ -201,7 +201,8 @@ func Harness_C19_update() {
 	c19Tx, c19ReadInTx, c19WriteInTx = nil, false, false
 	c19Conc = false
 	c19DBFails = vChoice("db-fails", 2) == 1
-	unknownLog := vChoice("unknown-log", 2) == 1
+	unknownKind := vChoice("unknown-log", 3) // configured id | an id nobody configured | a non-canonical base64 spelling of the configured id
+	unknownLog := unknownKind != 0
 	nextIDKind := vChoice("next-logid", 4)
 	next := c19STH("next", nextIDKind)
 	nextRaw := vJSONEncode(next)
@@ -221,8 +222,13 @@ func Harness_C19_update() {
 	c19ConsOK = vChoice("proof-valid", 2) == 1
 	pf := [][]byte{vBytes("node", 32)}
 	id := c19LogID
-	if unknownLog {
+	if unknownKind == 1 {
 		id = "BBBBBBBBBBBBBBBBBBBBBBBBBBBBBBBBBBBBBBBBBBB="
+	}
+	if unknownKind == 2 {
+		// decodes (leniently) to the same 32 bytes as c19LogID, but is not the configured identifier:
+		// one log must not get a second row under another spelling of its id
+		id = "AAECAwQFBgcICQoLDA0ODxAREhMUFRYXGBkaGxwdHh9="
 	}
 	out, err := w.Update(context.Background(), id, nextRaw, pf)
 
@@ -254,6 +260,11 @@ func Harness_C19_update() {
 		var cos api.CosignedSTH
 		vAssert(vJSONDecode(out, &cos) == nil && cos.TreeSize == next.TreeSize && cos.SHA256RootHash == next.SHA256RootHash && len(cos.WitnessSigs) == 1, "answer carries that STH and the cosignature")
 		return
+	}
+	// a refusal signalled as FailedPrecondition (what the HTTP layer and the witness client treat as
+	// 'stale or inconsistent') carries the currently held STH
+	if hasPrev && status.Code(err) == codes.FailedPrecondition {
+		vAssert(bytes.Equal(out, prevRaw), "a refusal reported as stale / inconsistent is answered with the currently held STH")
 	}
 	// --- refusals leave the table unchanged
 	if hasPrev {
